@@ -149,8 +149,8 @@ func (c *choicesCase) GetLowestPriorityValue() int32 {
 func (c *choicesCase) GetLowestPriorityValueOld() int32 {
 	result := int32(math.MaxInt32)
 	for _, cas := range c.elements {
-		if !cas.new && cas.value < result {
-			result = cas.value
+		if cas.oldValue < result {
+			result = cas.oldValue
 		}
 	}
 	return result
@@ -159,14 +159,15 @@ func (c *choicesCase) GetLowestPriorityValueOld() int32 {
 type choicesCaseElement struct {
 	name  string
 	value int32
-	new   bool
+	// oldValue is the priority value the branch had before the actual transaction
+	oldValue int32
 }
 
 func (c *choicesCaseElement) deepCopy() *choicesCaseElement {
 	return &choicesCaseElement{
-		name:  c.name,
-		value: c.value,
-		new:   c.new,
+		name:     c.name,
+		value:    c.value,
+		oldValue: c.oldValue,
 	}
 }
 
@@ -187,23 +188,21 @@ func (c *choiceCasesResolver) AddCase(name string, elements []string) *choicesCa
 	for _, e := range elements {
 		c.elementToCaseMapping[e] = name
 		c.cases[name].elements[e] = &choicesCaseElement{
-			name:  e,
-			value: int32(math.MaxInt32),
+			name:     e,
+			value:    int32(math.MaxInt32),
+			oldValue: int32(math.MaxInt32),
 		}
 	}
 	return c.cases[name]
 }
 
-// SetValue Sets the priority value that the given elements with its entire branch has calculated
-func (c *choiceCasesResolver) SetValue(elemName string, v int32, new bool) {
-	// math.MaxInt32 indicates that the branch is not populated,
-	// so we skip adding it
-	if v == math.MaxInt32 {
-		return
-	}
+// SetValue Sets the priority value that the given elements with its entire branch has calculated,
+// as well as the priority value (oldValue) the branch had before the transaction
+func (c *choiceCasesResolver) SetValue(elemName string, v int32, oldValue int32) {
+	// math.MaxInt32 indicates that the branch is not populated
 	actualCase := c.elementToCaseMapping[elemName]
 	c.cases[actualCase].elements[elemName].value = v
-	c.cases[actualCase].elements[elemName].new = new
+	c.cases[actualCase].elements[elemName].oldValue = oldValue
 }
 
 // GetBestCaseName returns the name of the case, that has the highes priority
